@@ -107,7 +107,7 @@ def rescore_real_tree(p, cats, tree):
     return s + p.deps[h][0]
 
 
-def real_grammar_suite(ctx, oracles, count):
+def real_grammar_suite(ctx, oracles, count, nbest=False):
     """small sentences parsed by the real depccg.parsing.run with the real English / Japanese rule
     functions and unary tables; the functions are tabulated on the closure of the sentence's
     categories so that the model and the enumeration oracle see the same grammar"""
@@ -119,6 +119,8 @@ def real_grammar_suite(ctx, oracles, count):
         lang = 'ja' if tries % 3 == 0 else 'en'
         r = G.real_grammar_problem(rng, lang)
         if r is not None:
+            if nbest:
+                r[0].nbest = rng.choice([2, 3, 5])
             items.append(r)
     ctx.extra['real_grammar_problems'] = len(items)
     single_suite(ctx, oracles, [], 0, items=items)
